@@ -3247,11 +3247,16 @@ class Parameters:
         """
         self_or_cls = self_.self_or_cls
         vals = []
+        # "changed" is judged against the defaults a new object would get, i.e.
+        # those of the class: a per-instance Parameter object keeps the default
+        # the class had when it was created.
+        cls_params = self_.cls.param.objects(instance=False)
         for name, val in self_or_cls.param.objects('existing').items():
             value = self_or_cls.param.get_value_generator(name)
             if name == 'name' and onlychanged and _is_auto_name(self_.cls.__name__, value):
                 continue
-            if not onlychanged or not Comparator.is_equal(value, val.default):
+            default = cls_params[name].default if name in cls_params else val.default
+            if not onlychanged or not Comparator.is_equal(value, default):
                 vals.append((name, value))
 
         vals.sort(key=itemgetter(0))
